@@ -7,5 +7,6 @@ CONSTANTS
   FixEnqueue = TRUE
   FixBatch = TRUE
   LossySend = FALSE
+  HasKeepalive = TRUE
 POSTCONDITION TraceReport
 CHECK_DEADLOCK FALSE
